@@ -1,0 +1,29 @@
+//go:build !verif
+
+/*
+Copyright The ORAS Authors.
+Licensed under the Apache License, Version 2.0 (the "License");
+you may not use this file except in compliance with the License.
+You may obtain a copy of the License at
+
+http://www.apache.org/licenses/LICENSE-2.0
+
+Unless required by applicable law or agreed to in writing, software
+distributed under the License is distributed on an "AS IS" BASIS,
+WITHOUT WARRANTIES OR CONDITIONS OF ANY KIND, either express or implied.
+See the License for the specific language governing permissions and
+limitations under the License.
+*/
+
+// Package verifhook provides named observation points for runtime
+// verification. The points are compiled in only with the build tag "verif".
+package verifhook
+
+// Enabled reports whether the hooks are compiled in.
+const Enabled = false
+
+// At is a no-op without the build tag "verif".
+func At(string) {}
+
+// AtKey is a no-op without the build tag "verif".
+func AtKey(string, string) {}
